@@ -456,6 +456,19 @@ func handleViolation(f *found, race bool) string {
 	rb, _ := os.ReadFile(rp)
 	json.Unmarshal(rb, &rr)
 	if !rr.Reproduced || !rr.SameLog {
+		// the shrinker runs its candidates in one process: with a library that
+		// carries state from run to run a "smaller" case may violate only thanks to
+		// what earlier candidates left behind. Fall back to the finding as found.
+		fmt.Fprintf(os.Stderr, "vcheck: the minimised case does not reproduce in a fresh process; falling back to the unminimised finding\n")
+		os.WriteFile(min, b, 0o644)
+		if text, err = engineMode(f.Engine, false, "replay", min, rp); err != nil {
+			die(2, "replay process failed:\n%s", tail(text, 4000))
+		}
+		rr = replayResult{}
+		rb, _ = os.ReadFile(rp)
+		json.Unmarshal(rb, &rr)
+	}
+	if !rr.Reproduced || !rr.SameLog {
 		die(2, "the minimised replay file did not reproduce in a fresh process (class %q, same log %v): determinism failure of the machinery, not a verdict", rr.Class, rr.SameLog)
 	}
 	mb, _ := os.ReadFile(min)
@@ -591,6 +604,7 @@ func check(prop, tier string) int {
 	reruns, mismatches := 0, 0
 	var samples []json.RawMessage
 	var best *found
+	var cands []*found // every worker's first finding (simulation parts only)
 	bestRace := false
 	perEngine := map[string]any{}
 	timedOut := false
@@ -630,6 +644,9 @@ func check(prop, tier string) int {
 				}
 			}
 			if w.Found != nil {
+				if !p.Race {
+					cands = append(cands, w.Found)
+				}
 				if best == nil || (w.Found.Index >= 0 && best.Index >= 0 && w.Found.Index < best.Index) || (w.Found.Index < 0 && best.Index >= 0) {
 					best = w.Found
 					bestRace = p.Race
@@ -645,7 +662,40 @@ func check(prop, tier string) int {
 			break
 		}
 	}
-	if mismatches > 0 {
+	if best != nil && !bestRace {
+		// A finding may depend on what earlier runs in the same worker process left
+		// behind in the library (package-level state): take the first finding, in
+		// run order, that a fresh process reproduces exactly as recorded.
+		sort.SliceStable(cands, func(i, j int) bool { return uint(cands[i].Index) < uint(cands[j].Index) })
+		best = nil
+		for i, c := range cands {
+			in := filepath.Join(scratch, fmt.Sprintf("cand%d.json", i))
+			b, _ := json.Marshal(c)
+			os.WriteFile(in, b, 0o644)
+			rp := filepath.Join(scratch, fmt.Sprintf("cand%d-replay.json", i))
+			if _, err := engineMode(c.Engine, false, "replay", in, rp); err != nil {
+				continue
+			}
+			var rr replayResult
+			rb, _ := os.ReadFile(rp)
+			json.Unmarshal(rb, &rr)
+			if rr.Reproduced && rr.SameLog {
+				best = c
+				break
+			}
+		}
+		if best == nil {
+			die(2, "none of the %d findings reproduces in a fresh process as recorded (%d of %d re-executed runs differed from their first execution): something carries state from run to run inside a worker process; machinery trouble, not a verdict", len(cands), mismatches, reruns)
+		}
+	}
+	if mismatches > 0 && best != nil {
+		// Re-executed runs differed AND a run violated the property. The usual
+		// reason is state that the library carries from one run to the next inside
+		// a worker process (a package-level cache). The finding stands only if its
+		// minimised replay file reproduces it in a fresh process with the same log
+		// (handleViolation insists on that and exits 2 otherwise).
+		fmt.Fprintf(os.Stderr, "vcheck: note: %d of %d re-executed runs differed from their first execution (%v) - state carried between runs inside one process; the finding below is reported because its replay file reproduces it in a fresh process\n", mismatches, reruns, notes)
+	} else if mismatches > 0 {
 		die(2, "determinism recheck failed for %d of %d re-executed runs (%v): machinery trouble, not a verdict", mismatches, reruns, notes)
 	}
 	wall := time.Since(t0).Seconds()
